@@ -20,6 +20,19 @@ STRENGTH = {
     'C13_m3': 'gradf that returns its argument / a view / an incrementally maintained caller-owned buffer',
     'C14_m4': 'first run: configured-data correspondence only (no concrete input); dominant-l2 stream (lamda >> ||A||^2, default steps) so the optimum oracle exhibits one',
     'C15_m2': 'PowerMethod on genuinely 2-D operands',
+    'C02_m7': 'first run: the harness itself hit a RecursionError on the self-referential operator (reported fail-closed); operand-purity stream and a cyclic-graph report',
+    'C04_m7': 'the same A.N object applied to a real-dtype array before the judged complex application (warm-up)',
+    'C04_m8': 'LinearLeastSquares (CG / GradientMethod / PDHG) on operators whose normal operator is an analytic shortcut, against the dense minimiser',
+    'C05_m10': 'first run: fail-closed translator only; arrays of >= 65536 elements whose half-lengths sum to an odd / even number',
+    'C08_m9': 'first run: fail-closed translator only; blocks of thousands of samples / dozens of batch signals (dot tests, scipy reference)',
+    'C08_m10': 'first run: fail-closed translator only; the same flat list of extents regrouped into different data / filter shapes in consecutive calls',
+    'C12_m9': 'first run: correspondence only; state right after construction (resid = sqrt <r0, P r0>) added to the oracle',
+    'C12_m10': 'first run: fail-closed translator only; operator A that returns one persistent buffer on every call',
+    'C13_m9': 'NO concrete input: Prox.__call__ caching of converted step arrays needs single-precision iterates with double-precision array steps under acceleration; reported through the dependency tie on prox.py',
+    'C13_m10': 'NO concrete input: integer-typed dual step; reported through the dependency tie on prox.py',
+    'C14_m10': 'NO concrete input (arguable defect: the caller edits the matrix of a MatMul in place between solves); reported through the dependency tie on linop.py',
+    'C15_m7': 'JsenseRecon with max_iter != max_inner_iter, counting outer updates',
+    'C15_m8': 'an Alg that received manual updates before being wrapped in an App',
     'C01_m6': 'first run: broken correspondence build only; same-shape Resize with ONE explicit shift in the leaf generator and the systematic grid',
     'C02_m5': 'first run: static alias scan only (no concrete input); interleaved application of convolution operators that differ only in strides / mode, each repeated and compared with its first output',
     'C02_m6': 'first run: fail-closed translator only; float32 / complex64 storage of the inputs in 30 % of the trees and in the systematic grid',
